@@ -16,7 +16,7 @@ import (
 	"github.com/enbility/ship-go/zzverif/simrt"
 )
 
-var prop = flag.String("prop", "C12", "C12|C13|C20")
+var prop = flag.String("prop", "C12", "C12|C13|C20|C08")
 var only = flag.String("only", "", "development aid: explore only the scenarios whose name contains this")
 
 // rec is the fake SHIP layer above the websocket connection.
@@ -146,6 +146,9 @@ func c12Body(nw, per int, closer string, stall bool) func() {
 		nOK, nErr := 0, 0
 		for _, c := range calls {
 			if !c.returned {
+				if *prop == "C08" {
+					simrt.Fail("C08|ws|writer-wedged", "a goroutine writing a message is blocked forever after the peer ended the connection (closer=%s)", closer)
+				}
 				simrt.Fail("C12|write-never-returned", "a write call did not return (closer=%s): blocked forever", closer)
 				continue
 			}
@@ -380,6 +383,13 @@ func main() {
 		level = "fault_enumeration"
 	case "C20":
 		scens = c20wsScenarios(r)
+	case "C08":
+		// the closures a peer can cause, against one to three goroutines that are sending: no panic, nobody wedged
+		for _, sc := range c12Scenarios(r) {
+			if strings.Contains(sc.Name, "close=peer-") || strings.Contains(sc.Name, "close=write-fault") || strings.Contains(sc.Name, "close=link-cut") {
+				scens = append(scens, sc)
+			}
+		}
 	default:
 		hx.EngineError("unknown -prop %s", *prop)
 	}
@@ -400,6 +410,13 @@ func main() {
 	sum := hx.ExploreAll(r, scens, false, 0)
 	if sum.Diverged > 0 {
 		hx.EngineError("replay divergence: %s", sum.FirstDiv)
+	}
+	if *prop == "C08" {
+		for k := range sum.Found {
+			if !strings.HasPrefix(k, "C08|") && !strings.HasPrefix(k, "panic|") && !hx.KeptKey(k) {
+				delete(sum.Found, k)
+			}
+		}
 	}
 	viol := hx.ConfirmViolations(sum, scens)
 	cov := sum.Coverage()
